@@ -550,6 +550,46 @@ MUTANTS = [
             let mut guard = self.client_server_map.lock();
             guard.remove(&(self.process_id, self.secret_key));
         }'''),
+    dict(id="c03-copydone-reply-read-once", prop="C03", file="src/client.rs", expect="C03-R4",
+         what="D28 again: the reply to CopyDone is read once",
+         old='''                            if !server.is_data_available() {
+                                break;
+                            }
+                        }
+
+                        if !server.in_transaction() {
+                            self.stats.transaction();
+                            server
+                                .stats()
+                                .transaction(self.server_parameters.get_application_name());
+
+                            // Release server back to the pool if we are in transaction mode.
+                            // If we are in session mode, we keep the server until the client disconnects.
+                            if self.transaction_mode {
+                                break;
+                            }
+                        }
+                    }
+
+                    // Some unexpected message.''',
+         new='''                            break;
+                        }
+
+                        if !server.in_transaction() {
+                            self.stats.transaction();
+                            server
+                                .stats()
+                                .transaction(self.server_parameters.get_application_name());
+
+                            // Release server back to the pool if we are in transaction mode.
+                            // If we are in session mode, we keep the server until the client disconnects.
+                            if self.transaction_mode {
+                                break;
+                            }
+                        }
+                    }
+
+                    // Some unexpected message.'''),
     # ------------------------------------------------------------------ C12
     dict(id="c12-raw-value", prop="C12", file="src/server.rs", expect="C12-R2",
          what="value interpolated without escaping again",
